@@ -51,7 +51,7 @@ def raw_reads(run, ix, ef, rule, prop, module_filter=None, floor=1):
             # an object created inside this function and never written to afterwards carries a cache consistent with its data
             refs = sim.an.env.get(owner, set())
             fresh_local = bool(refs) and all(r.fresh for r in refs) and owner not in sim.an.params \
-                and not any(fx.data_writes for fx in sim.fx.values())
+                and not any(fx.data_writes for fx in sim.fx.values()) and _bound_by_calls_only(f, owner)
             for node, o in reads:
                 if o != owner:
                     continue
@@ -90,6 +90,21 @@ def raw_reads(run, ix, ef, rule, prop, module_filter=None, floor=1):
                                   f"verified access the stale entries are handed on",
                                   key=key_of(f"{prop}-{rule}", spec, owner))
     run.floor("raw memo-dict reads examined", n, floor)
+
+
+def _bound_by_calls_only(f, name):
+    """`name` is bound in f only by plain assignments of a call result (`x = creation.box(...)`, `x = y.copy()`): a loop or
+    comprehension variable ranges over the ELEMENTS of a container, and the elements of a list built in this function are
+    not new objects just because the list is"""
+    binds = 0
+    for n in ast.walk(f.node):
+        if isinstance(n, ast.Name) and n.id == name and isinstance(n.ctx, ast.Store):
+            binds += 1
+    good = 0
+    for st in ast.walk(f.node):
+        if isinstance(st, ast.Assign) and len(st.targets) == 1 and isinstance(st.targets[0], ast.Name) and st.targets[0].id == name and isinstance(st.value, ast.Call):
+            good += 1
+    return binds > 0 and binds == good
 
 
 def _any_hashed(path):
